@@ -34,6 +34,11 @@ var (
 	flagTimeout = flag.Int("timeout", 0, "per-obligation solver timeout in ms (default: 10000 quick, 60000 thorough)")
 )
 
+// per-function budgets on the generated verification conditions (the largest
+// function of the unchanged tree is far below both)
+const maxChecksPerFunc = 20000
+const maxVCBytesPerFunc = 4 << 30
+
 func main() {
 	flag.Parse()
 	os.Exit(run())
@@ -271,6 +276,29 @@ func run() int {
 		for _, p := range ex.paths {
 			for _, n := range p.Notes {
 				rep.Notes[k+": "+n] = true
+			}
+		}
+		if !ex.aborted {
+			// VC volume budget: a mutated body can explore quickly and still
+			// produce hundreds of thousands of large queries
+			nchecks, nbytes := 0, 0
+			for _, p := range ex.paths {
+				sz := 0
+				for _, cmd := range p.Script {
+					sz += len(cmd.Text)
+					if cmd.Check != nil {
+						nchecks++
+						nbytes += sz
+					}
+				}
+			}
+			if nchecks > maxChecksPerFunc || nbytes > maxVCBytesPerFunc {
+				ex.aborted = true
+				ps := c.propList()
+				if prop != "" {
+					ps = []string{prop}
+				}
+				rep.EngineErrors = append(rep.EngineErrors, EngineErr{Fn: k, Msg: fmt.Sprintf("%s: verification-condition volume budget exceeded (%d obligations instances, %d MB of queries; a loop needs an invariant?)", k, nchecks, nbytes>>20), Props: ps})
 			}
 		}
 		if ex.aborted {
